@@ -2,6 +2,8 @@ import Tmcg.Model.Vtmf
 import Tmcg.Model.Sigma
 import TmcgProofs.Group
 import Mathlib.Algebra.BigOperators.Group.List.Basic
+import Mathlib.Tactic.FieldSimp
+import Mathlib.Tactic.Ring
 /-
   C08: the common card key as a function of the history of contributions and removals.
 -/
@@ -28,12 +30,230 @@ def Inv (G : Group) (hi : Int) (S : State) : Prop :=
   toF G S.h = toF G hi * (S.keys.map fun e => toF G e.2).prod ∧
   (S.keys.map Prod.fst).Nodup ∧ ∀ e ∈ S.keys, toF G e.2 ≠ 0
 
+/-! ### helpers -/
+
+/-- the state component of `runKeyOps` is a plain fold of the state transition -/
+theorem foldl_fst (ops : List KeyOp) : ∀ (acc : State × List Bool),
+    (ops.foldl (fun (acc : State × List Bool) op =>
+      let (S', r) := applyKeyOp acc.1 op
+      (S', acc.2 ++ [r])) acc).1
+      = ops.foldl (fun S op => (applyKeyOp S op).1) acc.1 := by
+  induction ops with
+  | nil => intro acc; rfl
+  | cons op ops ih =>
+    intro acc
+    rw [List.foldl_cons, List.foldl_cons, ih]
+
+theorem runKeyOps_fst (S : State) (ops : List KeyOp) :
+    (runKeyOps S ops).1 = ops.foldl (fun S op => (applyKeyOp S op).1) S :=
+  foldl_fst ops (S, [])
+
+theorem runKeyOps_cons (S : State) (op : KeyOp) (ops : List KeyOp) :
+    (runKeyOps S (op :: ops)).1 = (runKeyOps (applyKeyOp S op).1 ops).1 := by
+  rw [runKeyOps_fst, runKeyOps_fst, List.foldl_cons]
+
+theorem runKeyOps_nil (S : State) : (runKeyOps S []).1 = S := rfl
+
+theorem filter_ne_self (l : List (Int × Int)) (fp : Int) (h : ∀ e ∈ l, e.1 ≠ fp) :
+    l.filter (fun e => e.1 ≠ fp) = l := by
+  rw [List.filter_eq_self]
+  intro e he
+  simpa using h e he
+
+theorem find_none (l : List (Int × Int)) (fp : Int) (h : ∀ e ∈ l, e.1 ≠ fp) :
+    l.find? (fun e => e.1 = fp) = none := by
+  rw [List.find?_eq_none]
+  intro e he
+  simpa using h e he
+
+theorem removeKey_none (S : State) (fp : Int) (h : S.keys.find? (fun e => e.1 = fp) = none) :
+    removeKey S fp = (S, false) := by
+  unfold removeKey
+  rw [h]
+
+theorem removeKey_some (S : State) (fp a key ki : Int)
+    (h : S.keys.find? (fun e => e.1 = fp) = some (a, key)) (hk : invm key S.G.p = some ki) :
+    removeKey S fp =
+      ({ S with h := S.h * ki % S.G.p, keys := S.keys.filter (fun e => e.1 ≠ fp) }, true) := by
+  unfold removeKey
+  rw [h]
+  simp only
+  rw [hk]
+
+/-- with pairwise distinct fingerprints, the product over all stored keys is the looked-up key
+    times the product over the others -/
+theorem prod_filter_find {M : Type*} [CommMonoid M] (f : Int × Int → M) (fp : Int) :
+    ∀ (l : List (Int × Int)), (l.map Prod.fst).Nodup → ∀ (a key : Int),
+      l.find? (fun e => e.1 = fp) = some (a, key) →
+      (l.map f).prod = f (a, key) * ((l.filter (fun e => e.1 ≠ fp)).map f).prod := by
+  intro l
+  induction l with
+  | nil => intro _ a key h; simp at h
+  | cons e l ih =>
+    intro hnd a key hfind
+    rw [List.map_cons, List.nodup_cons] at hnd
+    by_cases he : e.1 = fp
+    · have h1 : e = (a, key) := by simpa [List.find?_cons, he] using hfind
+      have hrest : ∀ e' ∈ l, e'.1 ≠ fp := by
+        intro e' he' heq
+        exact hnd.1 (by rw [he, ← heq]; exact List.mem_map_of_mem he')
+      have hfil : (e :: l).filter (fun e => e.1 ≠ fp) = l := by
+        rw [List.filter_cons_of_neg (by simpa using he)]
+        exact filter_ne_self l fp hrest
+      rw [hfil, List.map_cons, List.prod_cons, h1]
+    · have h1 : l.find? (fun e => e.1 = fp) = some (a, key) := by
+        simpa [List.find?_cons, he] using hfind
+      rw [List.filter_cons_of_pos (by simpa using he), List.map_cons, List.map_cons,
+        List.prod_cons, List.prod_cons, ih hnd.2 a key h1]
+      exact mul_left_comm _ _ _
+
+theorem find_mem (l : List (Int × Int)) (fp a key : Int)
+    (h : l.find? (fun e => e.1 = fp) = some (a, key)) : (a, key) ∈ l ∧ a = fp := by
+  refine ⟨List.mem_of_find?_eq_some h, ?_⟩
+  simpa using List.find?_some h
+
+theorem length_filter_dup (fp : Int) : ∀ (l : List (Int × Int)), (l.map Prod.fst).Nodup →
+    (∃ key, (fp, key) ∈ l) → (l.filter (fun e => e.1 ≠ fp)).length + 1 = l.length := by
+  intro l
+  induction l with
+  | nil => intro _ h; simp at h
+  | cons e l ih =>
+    intro hnd hmem
+    rw [List.map_cons, List.nodup_cons] at hnd
+    by_cases he : e.1 = fp
+    · have hrest : ∀ e' ∈ l, e'.1 ≠ fp := by
+        intro e' he' heq
+        exact hnd.1 (by rw [he, ← heq]; exact List.mem_map_of_mem he')
+      rw [List.filter_cons_of_neg (by simpa using he), filter_ne_self l fp hrest, List.length_cons]
+    · obtain ⟨key, hk⟩ := hmem
+      have hk' : (fp, key) ∈ l := by
+        rcases List.mem_cons.mp hk with h | h
+        · exact absurd (by rw [← h]) he
+        · exact h
+      rw [List.filter_cons_of_pos (by simpa using he), List.length_cons, List.length_cons,
+        ih hnd.2 ⟨key, hk'⟩]
+
+theorem prod_eraseIdx {α M : Type*} [CommMonoid M] (f : α → M) : ∀ (l : List α) (i : Nat)
+    (hi : i < l.length), (l.map f).prod = f l[i] * ((l.eraseIdx i).map f).prod := by
+  intro l
+  induction l with
+  | nil => intro i hi; simp at hi
+  | cons a l ih =>
+    intro i hi
+    cases i with
+    | zero => simp
+    | succ i =>
+      have hi' : i < l.length := by simpa using hi
+      rw [List.eraseIdx_cons_succ, List.map_cons, List.map_cons, List.prod_cons, List.prod_cons,
+        List.getElem_cons_succ, ih i hi']
+      exact mul_left_comm _ _ _
+
+/-- accepting a fresh unit key preserves the invariant -/
+theorem accept_inv (hG : ValidGroup G) (hi : Int) (S : State) (hinv : Inv G hi S) (fp key : Int)
+    (hunit : toF G key ≠ 0) (hfresh : ∀ e ∈ S.keys, e.1 ≠ fp) :
+    Inv G hi (updateKeyAccept S fp key) ∧ (updateKeyAccept S fp key).keys = (fp, key) :: S.keys := by
+  have := fact_prime hG
+  obtain ⟨hSG, h0, h1, hprod, hnd, hunits⟩ := hinv
+  have hp := hG.p_pos
+  have hkeys : (updateKeyAccept S fp key).keys = (fp, key) :: S.keys := by
+    show (fp, key) :: S.keys.filter (fun e => e.1 ≠ fp) = _
+    rw [filter_ne_self S.keys fp hfresh]
+  refine ⟨⟨hSG, ?_, ?_, ?_, ?_, ?_⟩, hkeys⟩
+  · show 0 ≤ S.h * key % S.G.p
+    rw [hSG]; exact Int.emod_nonneg _ (ne_of_gt hp)
+  · show S.h * key % S.G.p < G.p
+    rw [hSG]; exact Int.emod_lt_of_pos _ hp
+  · rw [hkeys]
+    show toF G (S.h * key % S.G.p) = _
+    rw [hSG, toF_emod hG, toF_mul, hprod, List.map_cons, List.prod_cons]
+    ring
+  · rw [hkeys, List.map_cons, List.nodup_cons]
+    refine ⟨?_, hnd⟩
+    intro hmem
+    obtain ⟨e, he, heq⟩ := List.mem_map.mp hmem
+    exact hfresh e he heq
+  · rw [hkeys]
+    intro e he
+    rcases List.mem_cons.mp he with h | h
+    · rw [h]; exact hunit
+    · exact hunits e h
+
+/-- a removal request preserves the invariant -/
+theorem remove_inv (hG : ValidGroup G) (hi : Int) (S : State) (hinv : Inv G hi S) (fp : Int) :
+    Inv G hi (removeKey S fp).1 ∧
+    (removeKey S fp).1.keys = S.keys.filter (fun e => e.1 ≠ fp) := by
+  have := fact_prime hG
+  have hinv0 := hinv
+  obtain ⟨hSG, h0, h1, hprod, hnd, hunits⟩ := hinv
+  have hp := hG.p_pos
+  rcases hfind : S.keys.find? (fun e => e.1 = fp) with _ | ⟨a, key⟩
+  · rw [removeKey_none S fp hfind]
+    refine ⟨hinv0, ?_⟩
+    have : ∀ e ∈ S.keys, e.1 ≠ fp := by
+      intro e he
+      have := List.find?_eq_none.mp hfind e he
+      simpa using this
+    rw [filter_ne_self S.keys fp this]
+  · obtain ⟨hmem, -⟩ := find_mem S.keys fp a key hfind
+    have hunit : toF G key ≠ 0 := hunits (a, key) hmem
+    obtain ⟨ki, hki, -, -, hkiv⟩ := invm_val hG key hunit
+    rw [removeKey_some S fp a key ki hfind (by rw [hSG]; exact hki)]
+    refine ⟨⟨hSG, ?_, ?_, ?_, ?_, ?_⟩, rfl⟩
+    · show 0 ≤ S.h * ki % S.G.p
+      rw [hSG]; exact Int.emod_nonneg _ (ne_of_gt hp)
+    · show S.h * ki % S.G.p < G.p
+      rw [hSG]; exact Int.emod_lt_of_pos _ hp
+    · show toF G (S.h * ki % S.G.p) =
+        toF G hi * ((S.keys.filter (fun e => e.1 ≠ fp)).map fun e => toF G e.2).prod
+      rw [hSG, toF_emod hG, toF_mul, hprod, hkiv,
+        prod_filter_find (fun e => toF G e.2) fp S.keys hnd a key hfind]
+      field_simp
+    · exact (List.filter_sublist.map Prod.fst).nodup hnd
+    · intro e he
+      exact hunits e (List.mem_filter.mp he).1
+
+/-- the common key after a run of accepted contributions -/
+theorem accept_run (hG : ValidGroup G) : ∀ (cs : List (Int × Int)) (S : State), S.G = G →
+    0 ≤ S.h → S.h < G.p →
+    0 ≤ (runKeyOps S (cs.map fun e => KeyOp.accept e.1 e.2)).1.h ∧
+    (runKeyOps S (cs.map fun e => KeyOp.accept e.1 e.2)).1.h < G.p ∧
+    toF G (runKeyOps S (cs.map fun e => KeyOp.accept e.1 e.2)).1.h
+      = toF G S.h * (cs.map fun e => toF G e.2).prod := by
+  have := fact_prime hG
+  have hp := hG.p_pos
+  intro cs
+  induction cs with
+  | nil => intro S _ h0 h1; simp [runKeyOps_nil, h0, h1]
+  | cons c cs ih =>
+    intro S hSG h0 h1
+    rw [List.map_cons, runKeyOps_cons]
+    have hh : (applyKeyOp S (KeyOp.accept c.1 c.2)).1.h = S.h * c.2 % G.p := by
+      show S.h * c.2 % S.G.p = _
+      rw [hSG]
+    obtain ⟨i0, i1, i2⟩ := ih (applyKeyOp S (KeyOp.accept c.1 c.2)).1 hSG
+      (by rw [hh]; exact Int.emod_nonneg _ (ne_of_gt hp))
+      (by rw [hh]; exact Int.emod_lt_of_pos _ hp)
+    refine ⟨i0, i1, ?_⟩
+    rw [i2, hh, toF_emod hG, toF_mul, List.map_cons, List.prod_cons, mul_assoc]
+
 /-- **C08** refinement: for every well-formed history (any interleaving of contributions and
     removals), the common key is own key times the product of the accepted, not removed keys. -/
 theorem key_refines_product (hG : ValidGroup G) (FP : Int → Int) (hi : Int) (S : State)
     (hinv : Inv G hi S) (ops : List KeyOp) (hwf : WellFormed G FP S.keys ops) :
     Inv G hi (runKeyOps S ops).1 := by
-  sorry
+  induction ops generalizing S with
+  | nil => exact hinv
+  | cons op ops ih =>
+    rw [runKeyOps_cons]
+    cases op with
+    | accept fp key =>
+      obtain ⟨-, hunit, hfresh, hrest⟩ := hwf
+      obtain ⟨hinv', hkeys⟩ := accept_inv hG hi S hinv fp key hunit hfresh
+      exact ih _ hinv' (by rw [show (applyKeyOp S (KeyOp.accept fp key)).1.keys = _ from hkeys]; exact hrest)
+    | refuse => exact ih S hinv hwf
+    | remove fp =>
+      obtain ⟨hinv', hkeys⟩ := remove_inv hG hi S hinv fp
+      exact ih _ hinv' (by rw [show (applyKeyOp S (KeyOp.remove fp)).1.keys = _ from hkeys]; exact hwf)
 
 /-- a refused contribution returns false and leaves key and key store unchanged -/
 theorem refuse_is_noop (S : State) : applyKeyOp S .refuse = (S, false) := rfl
@@ -41,12 +261,21 @@ theorem refuse_is_noop (S : State) : applyKeyOp S .refuse = (S, false) := rfl
 /-- what `UpdateKey` refuses is decided by the proof of knowledge, and a refusal changes nothing -/
 theorem updateKey_refused_unchanged (H : Sigma.Hash) (kind : Sigma.Kind) (S S' : State) (key c r : Int)
     (h : Sigma.updateKey H kind S key c r = .ok (S', false)) : S' = S := by
-  sorry
+  unfold Sigma.updateKey at h
+  rcases hv : Sigma.nizkVerify H kind S key c r with e | b
+  · rw [hv] at h; cases h
+  · rw [hv] at h
+    cases b
+    · have : (S, false) = (S', false) := by
+        simpa [bind, Except.bind, pure, Except.pure] using h
+      exact (congrArg Prod.fst this).symm
+    · simp [bind, Except.bind, pure, Except.pure] at h
 
 theorem updateKey_outside_group (H : Sigma.Hash) (kind : Sigma.Kind) (S : State) (key c r : Int)
     (h : Sigma.checkElement kind S.G key = false) :
     Sigma.updateKey H kind S key c r = .ok (S, false) := by
-  sorry
+  unfold Sigma.updateKey Sigma.nizkVerify
+  simp [h, bind, Except.bind, pure, Except.pure]
 
 /-- order independence: processing the same accepted contributions in any order gives the same
     common key (and the same number of stored keys when fingerprints are distinct) -/
@@ -55,7 +284,11 @@ theorem all_orders_same_key (hG : ValidGroup G) (S : State) (hS : S.G = G)
     (cs cs' : List (Int × Int)) (hperm : cs.Perm cs') :
     (runKeyOps S (cs.map fun e => KeyOp.accept e.1 e.2)).1.h
       = (runKeyOps S (cs'.map fun e => KeyOp.accept e.1 e.2)).1.h := by
-  sorry
+  have := fact_prime hG
+  obtain ⟨a0, a1, a2⟩ := accept_run hG cs S hS hh.1 hh.2
+  obtain ⟨b0, b1, b2⟩ := accept_run hG cs' S hS hh.1 hh.2
+  apply eq_of_toF_eq hG ⟨a0, a1⟩ ⟨b0, b1⟩
+  rw [a2, b2, (hperm.map fun e => toF G e.2).prod_eq]
 
 /-- all players agree: player `i` starts from its own key `ks[i]` and processes the other keys
     in an arbitrary order; the result is the product of all keys, whoever `i` is -/
@@ -63,18 +296,46 @@ theorem all_players_agree (hG : ValidGroup G) (ks : List Int) (hk : ∀ k ∈ ks
     (i : Nat) (hi : i < ks.length) (S : State) (hS : S.G = G) (hh : S.h = ks[i])
     (others : List (Int × Int)) (hperm : (others.map Prod.snd).Perm (ks.eraseIdx i)) :
     toF G (runKeyOps S (others.map fun e => KeyOp.accept e.1 e.2)).1.h = (ks.map (toF G)).prod := by
-  sorry
+  have := fact_prime hG
+  have hmem : ks[i] ∈ ks := List.getElem_mem hi
+  obtain ⟨-, -, a2⟩ := accept_run hG others S hS (by rw [hh]; exact (hk _ hmem).1)
+    (by rw [hh]; exact (hk _ hmem).2)
+  rw [a2, hh, prod_eraseIdx (toF G) ks i hi]
+  congr 1
+  have : (others.map fun e => toF G e.2) = (others.map Prod.snd).map (toF G) := by
+    rw [List.map_map]; rfl
+  rw [this]
+  exact (hperm.map (toF G)).prod_eq
 
 /-- removing a previously accepted contribution restores the previous key and key store -/
 theorem remove_restores (hG : ValidGroup G) (S : State) (hS : S.G = G) (hh : 0 ≤ S.h ∧ S.h < G.p)
     (fp key : Int) (hfresh : ∀ e ∈ S.keys, e.1 ≠ fp) (hunit : toF G key ≠ 0) :
     ∃ S', removeKey (updateKeyAccept S fp key) fp = (S', true) ∧ S'.h = S.h ∧ S'.keys = S.keys := by
-  sorry
+  have := fact_prime hG
+  have hp := hG.p_pos
+  obtain ⟨ki, hki, -, -, hkiv⟩ := invm_val hG key hunit
+  have hfind : (updateKeyAccept S fp key).keys.find? (fun e => e.1 = fp) = some (fp, key) := by
+    show ((fp, key) :: S.keys.filter (fun e => e.1 ≠ fp)).find? (fun e => e.1 = fp) = _
+    simp
+  have hG' : (updateKeyAccept S fp key).G.p = G.p := by
+    show S.G.p = G.p
+    rw [hS]
+  rw [removeKey_some _ fp fp key ki hfind (by rw [hG']; exact hki)]
+  refine ⟨_, rfl, ?_, ?_⟩
+  · show (S.h * key % S.G.p) * ki % S.G.p = S.h
+    rw [hS]
+    apply eq_of_toF_eq hG ⟨Int.emod_nonneg _ (ne_of_gt hp), Int.emod_lt_of_pos _ hp⟩ hh
+    rw [toF_emod hG, toF_mul, toF_emod hG, toF_mul, hkiv, mul_assoc, mul_inv_cancel₀ hunit,
+      mul_one]
+  · show ((fp, key) :: S.keys.filter (fun e => e.1 ≠ fp)).filter (fun e => e.1 ≠ fp) = S.keys
+    rw [List.filter_cons_of_neg (by simp), List.filter_filter]
+    simp only [Bool.and_self]
+    exact filter_ne_self S.keys fp hfresh
 
 /-- removal of an unknown fingerprint is refused and changes nothing -/
 theorem remove_unknown (S : State) (fp : Int) (h : ∀ e ∈ S.keys, e.1 ≠ fp) :
     removeKey S fp = (S, false) := by
-  sorry
+  exact removeKey_none S fp (find_none S.keys fp h)
 
 /-- the duplicate corner, as the code behaves: offering a stored key again multiplies it in a
     second time but stores it once -/
@@ -82,6 +343,9 @@ theorem duplicate_key_behaviour (S : State) (fp key : Int) (hmem : (fp, key) ∈
     (hnd : (S.keys.map Prod.fst).Nodup) :
     (updateKeyAccept S fp key).h = S.h * key % S.G.p ∧
     (updateKeyAccept S fp key).keys.length = S.keys.length := by
-  sorry
+  refine ⟨rfl, ?_⟩
+  show ((fp, key) :: S.keys.filter (fun e => e.1 ≠ fp)).length = _
+  rw [List.length_cons]
+  exact length_filter_dup fp S.keys hnd ⟨key, hmem⟩
 
 end Tmcg.Key
